@@ -195,12 +195,34 @@ class Loader(importlib.abc.Loader):
             tr.shadowed = _module_level_shadows(tree)
             tree = tr.visit(tree)
             module.__dict__.update(sxbuiltins.INJECT)
+            module.__dict__["__builtins__"] = _instrumented_builtins()
         ast.fix_missing_locations(tree)
         code = compile(tree, self.path, "exec")
         exec(code, module.__dict__)
         hook = CONFIG["post_exec"].get(self.fullname)
         if hook is not None:
             hook(module)
+
+
+IMPORT_SHIMS = {}  # module name -> replacement module object, for `import` statements executed inside
+#                     instrumented waitress code (e.g. `from tempfile import TemporaryFile` in buffers.py)
+_ib = [None]
+
+
+def _instrumented_builtins():
+    if _ib[0] is None:
+        import builtins
+        d = dict(vars(builtins))
+        real_import = builtins.__import__
+
+        def sx_import(name, globals=None, locals=None, fromlist=(), level=0):
+            if level == 0 and name in IMPORT_SHIMS:
+                return IMPORT_SHIMS[name]
+            return real_import(name, globals, locals, fromlist, level)
+
+        d["__import__"] = sx_import
+        _ib[0] = d
+    return _ib[0]
 
 
 class Finder(importlib.abc.MetaPathFinder):
